@@ -433,6 +433,21 @@ def _call_diff(which):
     return call
 
 
+def _rec_where_scalar(draw, st):
+    s = _shape(draw, st)
+    d = _dt(draw, st, "realnum")
+    sc = draw(st.sampled_from([0, 1, 2])) if d.startswith(("int", "uint")) else draw(st.sampled_from([0.5, 2.0, 1]))
+    return [_inp(draw, st, s, "bool", 0), _inp(draw, st, _bshape(draw, st, s), d, 1)], {"scalar": sc, "first": draw(st.booleans())}, {}
+
+
+def _call_where_scalar(env):
+    import cubed.array_api as xp
+
+    c, a = env["arrs"]
+    p = env["params"]
+    return xp.where(c, p["scalar"], a) if p["first"] else xp.where(c, a, p["scalar"])
+
+
 def _rec_index(draw, st):
     s = _shape(draw, st, 1, 3)
     d = _dt(draw, st, "all")
@@ -562,6 +577,7 @@ def entries():
         Entry("clip(min=array)", _rec_clip("min"), _call_clip("min"), group="hand"),
         Entry("clip(max=array)", _rec_clip("max"), _call_clip("max"), group="hand"),
         Entry("clip(min=array,max=array)", _rec_clip("both"), _call_clip("both"), group="hand"),
+        Entry("where(cond,array,scalar)", _rec_where_scalar, _call_where_scalar, group="hand"),
         Entry("diff(prepend=array)", _rec_diff("prepend"), _call_diff("prepend"), group="hand"),
         Entry("diff(append=array)", _rec_diff("append"), _call_diff("append"), group="hand"),
         Entry("diff(prepend=array,append=array)", _rec_diff("both"), _call_diff("both"), group="hand"),
@@ -1426,14 +1442,14 @@ def check_case(case) -> Outcome:
 def shards(tier):
     if tier == "quick":
         nm = 5
-        out = [{"kind": "mix", "name": f"mix{i}", "part": i, "of": nm, "n": 400} for i in range(nm)]
-        out += [{"kind": "budget", "name": "budget0", "n": 160, "rotate": 5}]
-        out += [{"kind": "literal", "name": f"literal{i}", "n": 2500} for i in range(2)]
+        out = [{"kind": "mix", "name": f"mix{i}", "part": i, "of": nm, "n": 320} for i in range(nm)]
+        out += [{"kind": "budget", "name": "budget0", "n": 120, "rotate": 5}]
+        out += [{"kind": "literal", "name": f"literal{i}", "n": 2000} for i in range(2)]
         return out
     nm = 10
-    out = [{"kind": "mix", "name": f"mix{i}", "part": i, "of": nm, "n": 6000} for i in range(nm)]
-    out += [{"kind": "budget", "name": f"budget{i}", "n": 5000, "rotate": 5 + 17 * i} for i in range(3)]
-    out += [{"kind": "literal", "name": f"literal{i}", "n": 120000} for i in range(3)]
+    out = [{"kind": "mix", "name": f"mix{i}", "part": i, "of": nm, "n": 15000} for i in range(nm)]
+    out += [{"kind": "budget", "name": f"budget{i}", "n": 10000, "rotate": 5 + 17 * i} for i in range(3)]
+    out += [{"kind": "literal", "name": f"literal{i}", "n": 80000} for i in range(3)]
     return out
 
 
@@ -1445,7 +1461,7 @@ def run_shard(spec, seed, tier) -> Acc:
         finally:
             _cleanup_root()
     is_known, _ = core.known_matcher(ID)
-    budget = 300 if tier == "quick" else 2400
+    budget = 240 if tier == "quick" else 840
     import time
 
     t0 = time.monotonic()
